@@ -11,8 +11,8 @@ def build():
 
 def plan(ctx, quick_n, thorough_n):
     n = quick_n if ctx.quick else thorough_n
-    if ctx.broken:
-        n *= 5
+    if ctx.broken:                     # a proof / generated obligation no longer checks: search 4x harder for a failing input
+        n *= 4
     pct = {"VRT_STRATEGY": "pct"}
     fine = {"VRT_STICK": "0"}
     # no PCT for comp: the compensation loop of deal_n_continuously busy-polls without yielding while the
@@ -97,7 +97,7 @@ def run_all(ctx, prop, quick_n, thorough_n):
             dist["max_trace"] = max(dist["max_trace"], len(r["lines"]))
             dist["races"] += len(r["races"])
         allruns += runs
-        if len(ctx.failing) + len(ctx.broken) > 8:
+        if len(ctx.failing) > 60:      # enough concrete failing inputs; broken obligations never shorten the search
             break
     return allruns, dist
 
@@ -110,6 +110,8 @@ def view_pass(ctx, prop, quick_n, thorough_n):
     if exe is None:
         return [], {}
     n = quick_n if ctx.quick else thorough_n
+    if ctx.broken:
+        n *= 3
     seed0 = ctx.seed * 1000003 + 500000
     dist = {"modes": {}, "verdicts": {}, "oracle": 0, "races": 0, "stale_reads": 0, "runs_with_stale": 0}
     out = []
